@@ -48,7 +48,7 @@ SPEC = {
                      'nested), concurrent roots, raising callees, timeouts {0,1,2,5} under a real run() loop on a virtual clock; '
                      'non-trivial = a caller was resumed or timed out'),
     'C07': dict(manual=[(['tree', 'chan', 'structural', 'values'], 750), (['tree', 'structural', 'gen', 'dynh'], 240)], run=[],
-                patterns=120, kinds={'F', 'D', 'I'}, opts=dict(tree=True),
+                patterns=120, kinds={'F', 'D', 'I'}, opts=dict(tree=True), extra=('C01',),
                 nontrivial=lambda w: len(w.side['moves']) >= 2,
                 rule='histories over a pool of <=4 components of register (admissible only) / unregister / fire / tick of any root, '
                      'incl. nested unregistration, re-registration, unregister from handlers; non-trivial = >=2 attach/detach transitions'),
